@@ -22,6 +22,7 @@ type relOpts struct {
 	nTargets int
 	self     bool // allow an entity to be its own relation target
 	newest   bool // the newest alive entity is a possible target, too (it may carry a recycled id)
+	fixed    bool // batch removal through filter f2 of relFilters() (fixed target #0) and NewBatch; only for scenarios whose filters are relFilters()
 }
 
 // relFilters are the persistent filters used by the relation scenarios.
@@ -99,8 +100,10 @@ func relAlphabet(o relOpts) func(m *model.Model) []model.Op {
 			ops = append(ops, model.Op{K: model.OpRemoveEntities, F: 0, Fn: true})
 			ops = append(ops, model.Op{K: model.OpRemoveEntities, F: 1})
 			// through the filter with a fixed target (#0), also when that handle is stale and its id re-used
-			ops = append(ops, model.Op{K: model.OpRemoveEntities, F: 2})
-			if canNew {
+			if o.fixed {
+				ops = append(ops, model.Op{K: model.OpRemoveEntities, F: 2})
+			}
+			if o.fixed && canNew {
 				// batch creation: recycled ids land in rows of an existing table
 				ops = append(ops, model.Op{K: model.OpNewBatch, Path: model.PathMapN, Cs: ct.Of(ct.P), N: 2})
 			}
@@ -180,7 +183,7 @@ func init() {
 				// the last prelude creates the filter object with the fixed target #0 while #0 is alive (the handle
 				// inside the filter goes stale when #0 dies and its id is re-used)
 				Preludes: append(relPreludes(path), append(append([]model.Op{}, relPreludes(path)[2]...), model.Op{K: model.OpTouch, F: 2})),
-				Alphabet: relAlphabet(relOpts{path: path, maxAlive: 5, shrink: true, reset: true, batch: true, two: true, nTargets: 2, newest: path == model.PathUnsafe}),
+				Alphabet: relAlphabet(relOpts{path: path, maxAlive: 5, shrink: true, reset: true, batch: true, two: true, nTargets: 2, newest: path == model.PathUnsafe, fixed: true}),
 				Depth:    depth,
 			})
 		}
@@ -192,7 +195,7 @@ func init() {
 			Slots:    1,
 			Oracle:   drv.Oracle{World: true, Typed: true, Family: relFamily(), Filters: true, Lock: true},
 			Preludes: [][]model.Op{relPreludes(model.PathMapN)[5], {{K: model.OpNew, Path: model.PathMapN, Cs: ct.Of(ct.P, ct.R1), T: rel(ct.R1, model.ZeroTarget)}, {K: model.OpNew, Path: model.PathMapN, Cs: ct.Of(ct.P, ct.R1), T: rel(ct.R1, 0)}, {K: model.OpSetRel, Path: model.PathMapN, E: 0, T: rel(ct.R1, 1)}}},
-			Alphabet: relAlphabet(relOpts{path: model.PathMapN, maxAlive: 4, shrink: true, batch: true, nTargets: 2, self: true}),
+			Alphabet: relAlphabet(relOpts{path: model.PathMapN, maxAlive: 4, shrink: true, batch: true, nTargets: 2, self: true, fixed: true}),
 			Depth:    depth,
 		})
 		// 36 targets / child tables: batch operations over more than 32 tables
